@@ -526,6 +526,18 @@ func (f *File) Unlock(start, end uint64) error {
 	return err
 }
 
+// UnlockCtx is Unlock under a context of the caller's: cancelling it is the FUSE INTERRUPT a signal sends while the
+// request is in flight.
+func (f *File) UnlockCtx(ctx context.Context, start, end uint64) error {
+	lk, ok := f.H.(fs.HandlePOSIXLocker)
+	if !ok {
+		return syscall.ENOSYS
+	}
+	err := lk.Unlock(ctx, &bfuse.UnlockRequest{LockOwner: bfuse.LockOwner(f.Owner), Lock: bfuse.FileLock{Start: start, End: end, Type: bfuse.LockUnlock}})
+	f.M.trace("unlock(ctx) %s owner=%d %d..%d -> %v", f.Name, f.Owner, start, end, err)
+	return err
+}
+
 // Query is fcntl(F_GETLK): it returns the conflicting lock type, or LockUnlock when the request would succeed.
 func (f *File) Query(start, end uint64, write bool) (bfuse.LockType, error) {
 	lk, ok := f.H.(fs.HandlePOSIXLocker)
